@@ -268,7 +268,37 @@ pub fn judge(it: &mut Interp, c: &Case) -> Verdict {
         let _ = it.eval(&f.to_string());
     }
     let o = it.eval(&r.text);
-    let (kind, loc) = match &o {
+    let v = assess(c, &r, &o);
+    // the same text as a program FILE when its layout has CR LF line ends (the file reader
+    // normalises them; positions must not move)
+    if matches!(v, Verdict::Ok(_)) && r.text.contains('\r') {
+        let path = std::path::PathBuf::from(format!("/verif/target/scratch/c15-{}/{:?}.scm", std::process::id(), std::thread::current().id()).replace(['(', ')'], "_"));
+        if let Some(d) = path.parent() {
+            let _ = std::fs::create_dir_all(d);
+        }
+        if std::fs::write(&path, &r.text).is_ok() {
+            it.fresh_frame();
+            for f in crate::sexp::parse_all(c08::SETUP) {
+                let _ = it.eval(&f.to_string());
+            }
+            let i = &mut it.it;
+            let p = path.clone();
+            let of = match crate::drive::guarded(|| i.eval_file(p)) {
+                Ok(Ok(Some(v))) => Outcome::Val(crate::drive::obs_of(&v)),
+                Ok(Ok(None)) => Outcome::Val(crate::drive::Obs::NoValue),
+                Ok(Err(e)) => Outcome::Err(crate::drive::classify(&e), e.location),
+                Err(p) => Outcome::Panic(p),
+            };
+            if let Verdict::Bad(e, ob, k) = assess(c, &r, &of) {
+                return Verdict::Bad(format!("[read from a file]{}", e), ob, k);
+            }
+        }
+    }
+    v
+}
+
+fn assess(c: &Case, r: &Rendered, o: &Outcome) -> Verdict {
+    let (kind, loc) = match o {
         Outcome::Err(k, l) => (k.clone(), *l),
         other => return Verdict::Bad(": an error with a location".into(), format!("{}", other), None),
     };
